@@ -767,7 +767,15 @@ KIND_OF_TYPE = {"EVENT_TYPE_ACTION": ("KAction", ["cb"], {}),
 OUT_OF_MODEL_TYPES = {"EVENT_TYPE_OSC", "EVENT_TYPE_SUPERCOLLIDER", "EVENT_TYPE_PATCH_CREATE", "EVENT_TYPE_PATCH_SET", "EVENT_TYPE_PATCH_TRIGGER"}
 EVENT_CALLBACKS = ["if self.timeline.on_event_callback:\n    self.timeline.on_event_callback(self, event)",
                    "if self.on_event_callbacks:\n    for callback in self.on_event_callbacks:\n        callback(event)"]
-DEVICE_CALLS = {"control": ("CControl", 3), "program_change": ("CProgram", 2)}
+DEVICE_CALLS = {"control": ("CControl", 3), "program_change": ("CProgram", 2), "note_on": ("CNoteOn", 3)}
+# the note branch: statements around the per-voice body, accepted by exact text (resolution of the event's values into voices,
+# devices with an `event` method, pitch bend: not in the model)
+NOTE_BRANCH = ["if hasattr(self.output_device, 'event') and callable(getattr(self.output_device, 'event')):", "if type(event.amplitude) is tuple or event.amplitude > 0:"]
+NOTE_GUARDED = ["notes = event.note if hasattr(event.note, '__iter__') else [event.note]", "for index, note in enumerate(notes):",
+                "if event.pitchbend is not None:\n    self.output_device.pitch_bend(event.pitchbend, channel)"]
+VOICE_RESOLUTION = ["amp = event.amplitude[index] if isinstance(event.amplitude, tuple) else event.amplitude",
+                    "channel = event.channel[index] if isinstance(event.channel, tuple) else event.channel",
+                    "gate = event.gate[index] if isinstance(event.gate, tuple) else event.gate"]
 
 
 class PerformBlock(TBlock):
@@ -778,6 +786,9 @@ class PerformBlock(TBlock):
         if v[0] != "none":
             raise Reject("return of a value")
         return self.outcome(env, "PfOk")
+
+    def on_device_fail(self, env):
+        return self.outcome(env, "PfRaise")
 
     def types_of(self, test):
         """event.type == EVENT_TYPE_X [or event.type == EVENT_TYPE_Y] -> names"""
@@ -807,7 +818,7 @@ class PerformBlock(TBlock):
                 e_bad["n"] = ("nat", "(S %s)" % env["n"][1])
                 # the scripted device fault of the model: the call with that number raises instead of being delivered
                 return ("if dev_emit fail %s then let calls := (%s ++ [%s %s]) in\n  let n := (S %s) in\n  %s else %s"
-                        % (env["n"][1], env["calls"][1], ctor, " ".join(a[1] for a in args), env["n"][1], go(e_ok), self.outcome(e_bad, "PfRaise")))
+                        % (env["n"][1], env["calls"][1], ctor, " ".join(a[1] for a in args), env["n"][1], go(e_ok), self.on_device_fail(e_bad)))
             return ["calls", "n"], render
         return TBlock.classify(self, st, env)
 
@@ -840,7 +851,7 @@ class PerformBlock(TBlock):
                 if nm == "EVENT_TYPE_ACTION":
                     t = "perform_action %s %s %s cb" % (env["self"][1], env["calls"][1], env["n"][1])
                 elif nm == "EVENT_TYPE_NOTE":
-                    t = "perform_note fail nowT %s %s %s vs" % (env["self"][1], env["calls"][1], env["n"][1])
+                    t = "perform_note_with (src_track_perform_voice fail nowT) %s %s %s vs" % (env["self"][1], env["calls"][1], env["n"][1])
                 else:
                     e2 = dict(env)
                     for a, b in attrs.items():
@@ -853,6 +864,49 @@ class PerformBlock(TBlock):
         return TBlock.special_stmt(self, st, rest, env, go)
 
 
+class VoiceBlock(PerformBlock):
+    """the body of the voice loop of the note branch: state (self, calls, n, ok)"""
+
+    def on_device_fail(self, env):
+        return "(%s, %s, %s, false)" % (env["self"][1], env["calls"][1], env["n"][1])
+
+    def special_expr(self, n, env):
+        src = ast.unparse(n)
+        if src == "event.duration * gate" and env.get("gate", ("?",))[0] == "int":
+            return ("time", env["gate"][1])           # v_glen is duration * gate
+        if src == "self.timeline.current_time":
+            return ("time", "nowT")
+        if isinstance(n, ast.Call) and isinstance(n.func, ast.Name) and n.func.id == "NoteOffEvent" and len(n.args) == 4 and not n.keywords:
+            t, nt, ch, ab = [self.ex(a, env) for a in n.args]
+            if (t[0], nt[0], ch[0], ab[0]) != ("time", "int", "int", "time"):
+                raise Reject("NoteOffEvent(...) not understood: " + src)
+            return ("noteoff", "(mkNO %s %s %s %s)" % (t[1], ab[1], nt[1], ch[1]))
+        return PerformBlock.special_expr(self, n, env)
+
+
+def first_line(st):
+    return ast.unparse(st).split("\n")[0]
+
+
+def gen_perform_voice(note_body):
+    """note_body: the statements of the `elif event.type == EVENT_TYPE_NOTE:` branch -> term of the per-voice step"""
+    if len(note_body) != 2 or [first_line(x) for x in note_body] != NOTE_BRANCH or not isinstance(note_body[0].body[-1], ast.Return) or note_body[1].orelse:
+        raise Reject("note branch: structure not understood")
+    inner = note_body[1].body
+    if len(inner) != 3 or first_line(inner[0]) != NOTE_GUARDED[0] or first_line(inner[1]) != NOTE_GUARDED[1] or ast.unparse(inner[2]) != NOTE_GUARDED[2] \
+            or not isinstance(inner[1], ast.For) or inner[1].orelse:
+        raise Reject("note branch: structure not understood")
+    loop = inner[1].body
+    if len(loop) != 4 or [ast.unparse(x) for x in loop[:3]] != VOICE_RESOLUTION or not isinstance(loop[3], ast.If) or loop[3].orelse:
+        raise Reject("voice loop: structure not understood")
+    fn = ast.FunctionDef(name="voice_body", args=ast.arguments(posonlyargs=[], args=[], kwonlyargs=[], kw_defaults=[], defaults=[]), body=[loop[3]], decorator_list=[])
+    b = VoiceBlock(fn, reserved=(RESERVED | {"fail", "nowT", "v", "dev_emit", "mkNO", "v_note", "v_amp", "v_chan", "v_glen"}) - {"c"})
+    env = {"self": ("track", "self"), "calls": ("calls", "calls"), "n": ("nat", "n"), "note": ("int", "(v_note v)"), "amp": ("optint", "(v_amp v)"),
+           "channel": ("int", "(v_chan v)"), "gate": ("optint", "(v_glen v)"), "event": ("event", "event")}
+    return b.run([loop[3]], env, lambda e: "(%s, %s, %s, true)" % (e["self"][1], e["calls"][1], e["n"][1]))
+
+
+
 def gen_perform_event(cls):
     fn = method(cls, "perform_event")
     signature(fn, 2)
@@ -861,6 +915,12 @@ def gen_perform_event(cls):
     # the branches that are not translated (action, note, and the event types the model does not have) are emptied first:
     # their text is not read at all (Sched/SrcGlue.v perform_action / perform_note stand for the first two)
     import copy as _copy
+    voice = None
+    for node in ast.walk(fn):
+        if isinstance(node, ast.If) and PerformBlock.types_of(None, node.test) == ["EVENT_TYPE_NOTE"]:
+            voice = gen_perform_voice(node.body)
+    if voice is None:
+        raise Reject("perform_event: no note branch")
     fn = _copy.deepcopy(fn)
     for node in ast.walk(fn):
         if isinstance(node, ast.If) and PerformBlock.types_of(None, node.test) is not None:
@@ -869,7 +929,7 @@ def gen_perform_event(cls):
     b = PerformBlock(fn, reserved=(RESERVED | {"fail", "nowT", "n", "cb", "vs", "perform_action", "perform_note", "dev_emit"}) - {"c"})
     env = {"self": ("track", "self"), "event": ("event", "event"), "calls": ("calls", "[]"), "n": ("nat", "n")}
     term = b.run(body_of(fn), env, lambda e: b.outcome(e, "PfOk"))
-    return term, lines_of(fn)
+    return voice, term, lines_of(fn)
 
 
 # ---- Track.tick (the non-interpolating branch) ------------------------------------------------------------------------------------
@@ -1039,7 +1099,10 @@ def main(out_path):
     term, lines = gen_track_update(track)
     defs.append("(* Track.update, track.py lines %s (times as exact integers; interpolate=None) *)\n"
                 "Definition src_track_update (cfg : config) (timeline : timeline_t) (self : track_t) (events : stream) (quantize delay count : option Z) : timeline_t * track_t :=\n  %s." % (lines, term))
-    term, lines = gen_perform_event(track)
+    voice, term, lines = gen_perform_event(track)
+    defs.append("(* Track.perform_event, note branch: the body of the voice loop (one voice: note, amp, channel, duration * gate) *)\n"
+                "Definition src_track_perform_voice (fail : option nat) (nowT : Z) (st0 : track_t * list call * nat * bool) (v : voice) : track_t * list call * nat * bool :=\n"
+                "  let '(self, calls, n, ok) := st0 in\n  if ok then %s else st0." % voice)
     defs.append("(* Track.perform_event, track.py lines %s: the guards, the dispatch on event.type, the control and program-change branches *)\n"
                 "Definition src_track_perform_event (fail : option nat) (nowT : Z) (self : track_t) (event : event) (n : nat) : track_t * list call * nat * performed :=\n  %s." % (lines, term))
     loop, first, second, lines = gen_track_tick(track)
